@@ -32,7 +32,9 @@ var apiFiles = []treeFile{
 	{Name: "ok2", Src: "@use(\"~main\")@insert(\"content\")second page of {{ who }} {{ \"<i>&amp;&</i>\" }}@component(\"~c\", {n: 2})@end@insert(\"title\", \"Second\")"},
 	{Name: "bare", Src: "@use(\"~main\")a page of the layout that inserts nothing"},
 	{Name: "bad", Src: "PARTIAL-OUTPUT-MARKER {{ who }}\n{{ items[0] / 0 }} after"},
-	{Name: "err", Src: "<custom>error page 50% %v</custom>"},
+	// the custom error page is a page of its own: it is rendered without the failed request's data (it binds names the data
+	// maps of the operations bind with other types, and reads none of them)
+	{Name: "err", Src: "<custom>error page 50% %v{{ who = 7 }}{{ items = \"none\" }}[{{ who }}{{ items }}]</custom>"},
 	{Name: "components/boom", Src: "PARTIAL-OUTPUT-MARKER in component {{ n / 0 }}"},
 	{Name: "layouts/boom", Src: "PARTIAL-OUTPUT-MARKER in layout @reserve(\"content\") {{ items[0] / 0 }}"},
 	{Name: "bad-in-component", Src: "PARTIAL-OUTPUT-MARKER before @component(\"~boom\", {n: 1}) after"},
@@ -94,7 +96,7 @@ const fnMix = `|{{ items.join("-") }}|{{ items.reverse() }}|{{ items.slice(1) }}
 
 // the pages contain per cent signs: what Response writes is the page, byte for byte
 const okPage = "<h>BO1</h><b>(1,)(2,)(3)[Bo:BO][2: second 2]</b><p>100% %d %s %%</p>"
-const customPage = "<custom>error page 50% %v</custom>"
+const customPage = "<custom>error page 50% %v[7none]</custom>"
 
 // apiRec is a struct type every call passes; apiDataN adds a value of a struct type no earlier call has used
 // (reflect.StructOf with a field named after n), a pointer and a nested map, so that every conversion path of the data
@@ -265,6 +267,8 @@ func (e *apiEnv) run(o apiOp) (sig string, body string, ok bool) {
 		page, data["v"] = "poly", []string{"x", "y"}
 	case "polyI":
 		page, data["v"] = "poly", 1234
+	case "okbad": // the ok page with a value no template can see: this call fails, the page stays renderable
+		page, data["ch"] = "ok", make(chan int)
 	case "lastA":
 		page, data["xs"] = "lastof", []string{"a"}
 	case "lastB":
@@ -353,6 +357,7 @@ func (e *apiEnv) run(o apiOp) (sig string, body string, ok bool) {
 	}
 	delete(data, "v")
 	delete(data, "u")
+	delete(data, "ch")
 	if data != nil && dataN >= 0 && !reflect.DeepEqual(data, apiDataN(dataN)) {
 		sig += " DATA-MODIFIED"
 	}
